@@ -112,9 +112,17 @@ func (ct *controller) gate() {
 	atomic.AddInt64(&ct.ctors, 1)
 	atomic.StoreInt32(&w.parked, 1)
 	atomic.AddInt64(&ct.ticks, 1)
-	<-w.release
-	atomic.StoreInt32(&w.parked, 0)
+	<-w.release // (the controller has taken the parked mark away: from its send on this goroutine runs)
+}
+
+// let a parked worker go on; false: it is not parked
+func (ct *controller) letGo(w *worker) bool {
+	if !atomic.CompareAndSwapInt32(&w.parked, 1, 0) {
+		return false
+	}
 	atomic.AddInt64(&ct.ticks, 1)
+	w.release <- struct{}{}
+	return true
 }
 
 // quiet: no worker can move without the controller
@@ -341,9 +349,7 @@ func forceCase(rng *rand.Rand, out *h.Out, c ftCase, groups [][]int, idx int, ti
 				return false, "", fmt.Errorf("case %d: bad command %q", c.ID, s)
 			}
 			w := ct.ws[g-1]
-			if atomic.LoadInt32(&w.parked) == 1 {
-				w.release <- struct{}{}
-			}
+			ct.letGo(w)
 		default:
 			return false, "", fmt.Errorf("case %d: bad command %q", c.ID, s)
 		}
@@ -370,7 +376,7 @@ func forceCase(rng *rand.Rand, out *h.Out, c ftCase, groups [][]int, idx int, ti
 			}
 			break
 		}
-		p.release <- struct{}{}
+		ct.letGo(p)
 		if !ct.waitQuiet(timeout) {
 			status = "not quiet at the end"
 		}
@@ -386,9 +392,11 @@ func forceCase(rng *rand.Rand, out *h.Out, c ftCase, groups [][]int, idx int, ti
 				default:
 				}
 				for _, w := range ct.ws {
-					select {
-					case w.release <- struct{}{}:
-					default:
+					if atomic.CompareAndSwapInt32(&w.parked, 1, 0) {
+						select {
+						case w.release <- struct{}{}:
+						case <-time.After(time.Second):
+						}
 					}
 				}
 				time.Sleep(50 * time.Microsecond)
